@@ -856,7 +856,12 @@ impl<'a> Runner<'a> {
             // The dependency whose inconsistency caused this execution.
             let p = &pass_before;
             let cause = if p.started && p.ended_incons && p.next > 0 { deps_before.get(p.next - 1).copied() } else { None };
-            let stale_by_partial_td = match cause { Some((DepKind::Require, Target::Task(u))) => executed.contains(&u) && probe_stale.contains(&u) || self.td_partial_exec.contains(&u), _ => false };
+            let stale_by_partial_td = match cause {
+              Some((DepKind::Require, Target::Task(u))) => executed.contains(&u) && probe_stale.contains(&u) || self.td_partial_exec.contains(&u),
+              // ... or, transitively, a resource that such a stale task (re)wrote when this probe made it catch up.
+              Some((DepKind::Read | DepKind::Write, Target::Res(r))) => probe_stale.iter().any(|u| executed.contains(u) && self.ledger[*u].as_ref().map(|e| e.deps.iter().any(|d| d.kind == DepKind::Write && d.target == Target::Res(r))).unwrap_or(false)),
+              _ => false,
+            };
             if stale_by_partial_td {
               probe_stale.insert(*t);
               sig_violations.push(Violation::new(&["C03"], "O3-probe-executed", step, format!("after a completely reported bottom-up build, requiring known task {t} executed it: its require dependency {:?} was left stale by an earlier partial top-down session that re-executed the required task", cause)).with_sig("stale-requirer-after-partial-top-down"));
@@ -1126,7 +1131,11 @@ impl<'a> Runner<'a> {
               // A reader that was only validated (its own dependencies are consistent) while a task on its former
               // path to the writer was re-executed and no longer requires the writer: pie does not notice that
               // (recorded finding). A reader that executed in this session has no such excuse.
-              let sig = if !executed.contains(&x) && !executed.contains(w) && executed.iter().any(|m| self.prev[*m].as_ref().map(|e| !e.req_issued.is_empty()).unwrap_or(false)) { "path-dropped-by-reexecuted-intermediate" } else { "" };
+              // The intermediate task may also have been re-executed in an earlier session than the one that now
+              // validates the reader: any session after the reader's own latest execution counts.
+              let x_session = self.ledger[x].as_ref().map(|e| e.session).unwrap_or(usize::MAX);
+              let intermediate_reexecuted = (0..ntasks).any(|m| m != x && m != *w && self.ledger[m].as_ref().map(|e| e.session > x_session || executed.contains(&m)).unwrap_or(false) && self.prev[m].as_ref().map(|e| !e.req_issued.is_empty()).unwrap_or(false));
+              let sig = if !executed.contains(&x) && !executed.contains(w) && intermediate_reexecuted { "path-dropped-by-reexecuted-intermediate" } else { "" };
               violations.push(Violation::new(&["C05"], "reader-without-path-after-build", step, format!("after the build returned, task {x}, which was executed or validated in it, is a recorded reader of {:?} without (transitively) requiring its writer {w}", r)).with_sig(sig));
               break;
             }
